@@ -35,11 +35,11 @@ type Index struct {
 
 // Number forms of DICT operands.
 const (
-	FormInt1  = 1 // 32..246
-	FormInt2  = 2 // 247..254
-	FormInt3  = 3 // 28
-	FormInt5  = 5 // 29
-	FormReal  = 6 // 30
+	FormInt1 = 1 // 32..246
+	FormInt2 = 2 // 247..254
+	FormInt3 = 3 // 28
+	FormInt5 = 5 // 29
+	FormReal = 6 // 30
 )
 
 // Operand is one DICT operand.
@@ -190,9 +190,9 @@ type Font struct {
 
 	IsCID bool
 
-	CharsetOffset int // 0,1,2 = predefined
-	CharsetFormat int // -1 for predefined charsets
-	CharsetRanges int // number of ranges (formats 1, 2)
+	CharsetOffset int   // 0,1,2 = predefined
+	CharsetFormat int   // -1 for predefined charsets
+	CharsetRanges int   // number of ranges (formats 1, 2)
 	Charset       []int // SID or CID per glyph; Charset[0] = 0
 
 	EncodingOffset  int // 0,1 = predefined; -1 = not applicable (CID)
